@@ -588,3 +588,10 @@ H("C18", "matrix_card", "c18_proof_agreement_1x1", timeout=3600, oracle_features
   encodes=["matrix_card::verify_matrix_card_hash", "MatrixCardVerifier::{new, get_matrix_coordinates, enter_value, into_proof}"],
   inputs="2x2 card, one digit per cell, one challenge; seed, session key, card contents: any",
   asserts="as c18_proof_agreement", bounds="2x2 card, (digits, challenges) = (1, 1)", assumes=[HASH_ASSUME, "Rc4 keystream and coordinate generation uninterpreted; explicit collision-freeness"], **_MC)
+H("C03", "srp_internal_client", "c03_a_client_twice", timeout=2400, oracle_features=["b8"], encodes=["calculate_client_public_key", "LargeSafePrime::to_bigint", "Generator::to_bigint"],
+  inputs="two arbitrary groups (g1, N1), (g2, N2) and private keys, used one after the other in one process", asserts="the second key is g2^a2 mod N2 (no state lingers from the first group)",
+  bounds="history of two calls", assumes=[BIG_ASSUME])
+H("C09", "wrath_header::inner_crypto", "c09_inner_stream", timeout=2400, oracle_features=["cap64", "q4"], encodes=["InnerCrypto::new", "InnerCrypto::apply", "Rc4::apply_keystream"],
+  inputs="session key, direction constant, 263 data bytes: any; RC4 key schedule replaced by a fixed concrete permutation",
+  asserts="calls of 250, 10 and 3 bytes after construction produce data XOR keystream bytes 1024..1287 of the textbook PRGA from that state",
+  bounds="concrete cipher state; 1024 + 263 keystream bytes; unwind 1030", assumes=["Rc4::new replaced by a constant state in this harness (the key schedule is c09_ksa_concrete / c09_wiring)"])
